@@ -127,6 +127,21 @@ func roleMenu(w *world.World, o menuOpts, toks [][]byte) []world.Action {
 				}
 			}
 		}
+		// several held roles removed by one message
+		for _, a := range users(o) {
+			var heldRoles []string
+			for _, r := range roles {
+				if r != vmcommon.ESDTRoleNFTCreate && spec.HasRole(w.Get(a), string(tok), r) {
+					heldRoles = append(heldRoles, r)
+				}
+			}
+			if len(heldRoles) >= 2 {
+				acts = append(acts, uni.UnSetRole(a, tok, heldRoles[:2]...))
+				if len(heldRoles) > 2 {
+					acts = append(acts, uni.UnSetRole(a, tok, heldRoles...))
+				}
+			}
+		}
 		if kind == "nft" {
 			if cur := anyHolder(w, string(tok), vmcommon.ESDTRoleNFTCreate); cur != nil && !handoverInFlight(w, string(tok)) {
 				for _, next := range users(o) {
